@@ -1819,6 +1819,8 @@ TARGETS2 = {
         ("varintRLE.c", "varintRLEEncode", "rleEncode"),
         ("varintRLE.c", "varintRLEGetRunCount", "rleGetRunCount"),
         ("varintRLE.c", "varintRLEEncodeWithHeader", "rleEncodeWithHeader"),
+        ("varintRLE.c", "varintRLESize", "rleSize"),
+        ("varintRLE.c", "varintRLEIsBeneficial", "rleIsBeneficial"),
     ],
     "CRLEDec": [
         ("import", "CTagged", TAGGED_IMPORTS),
